@@ -22,6 +22,9 @@ ASSUMPTIONS = ["E4 AEON set algebra/transfer_from, E7 transition_guided_reductio
 CASE_TIMEOUT = {"quick": 40, "thorough": 120}
 
 
+RARE_CFG = 0.1     # share of cases run under rarely used option values (same results expected)
+
+
 def budget(tier):
     return 1200 if tier == "quick" else 12000
 
